@@ -88,6 +88,9 @@ type c12Op struct {
 	ID   string `json:"id,omitempty"`
 	U    string `json:"u,omitempty"`
 	K    string `json:"k,omitempty"`
+	// Bad: the written value cannot be encoded (create/update), or one of the
+	// seeds cannot (kind init-bad): the call must fail and change nothing.
+	Bad bool `json:"bad,omitempty"`
 }
 
 var c12Seeds = map[string][2]string{"seed1": {"s1", "a"}, "seed2": {"s2", "ab"}, "seed3": {"s3", ""}}
@@ -96,7 +99,8 @@ var c12IDs = []string{"seed1", "seed2", "seed3", "x1", "x2", "x3"}
 // c12Ops derives the deterministic operation list of a configuration.
 func c12Ops(cfg c12Cfg) []c12Op {
 	r := rand.New(rand.NewSource(cfg.Seed))
-	ops := []c12Op{{Kind: "init"}, {Kind: "create", ID: "x1", U: "first", K: "ab"}, {Kind: "update", ID: "x1", U: "second", K: "b"},
+	ops := []c12Op{{Kind: "init-bad", Bad: true}, {Kind: "init"}, {Kind: "create", ID: "x1", U: "first", K: "ab"}, {Kind: "update", ID: "x1", U: "second", K: "b"},
+		{Kind: "create", ID: "x3", U: "nan1", K: "a", Bad: true}, {Kind: "update", ID: "x1", U: "nan2", K: "a", Bad: true},
 		{Kind: "update", ID: "seed1", U: "s1b", K: "z"}, {Kind: "delete", ID: "x1"}, {Kind: "create", ID: "x2", U: "third", K: ""}}
 	for i := 0; i < cfg.Steps; i++ {
 		id := c12IDs[r.Intn(len(c12IDs))]
@@ -104,7 +108,9 @@ func c12Ops(cfg c12Cfg) []c12Op {
 		if r.Intn(5) == 0 {
 			k = ""
 		}
-		switch v := r.Intn(12); {
+		switch v := r.Intn(14); {
+		case v >= 12:
+			ops = append(ops, c12Op{Kind: []string{"create", "update"}[v-12], ID: id, U: fmt.Sprintf("nan%d", i), K: k, Bad: true})
 		case v < 4:
 			ops = append(ops, c12Op{Kind: "create", ID: id, U: fmt.Sprintf("u%d", i), K: k})
 		case v < 8:
@@ -146,6 +152,11 @@ func c12Open(dir string, cfg c12Cfg) (*c12Store, error) {
 }
 
 func (s *c12Store) init(typed bool) (created int, err error) {
+	return s.initSeeds(typed, false)
+}
+
+// initSeeds runs Init; with bad=true the second seed cannot be encoded.
+func (s *c12Store) initSeeds(typed, bad bool) (created int, err error) {
 	cb := func(id string, before, after interface{}) {
 		if before == nil {
 			created++
@@ -158,7 +169,11 @@ func (s *c12Store) init(typed bool) (created int, err error) {
 			ids = append(ids, id)
 		}
 		sort.Strings(ids)
-		for _, id := range ids {
+		for i, id := range ids {
+			if bad && i == 1 {
+				add(id, mkUnencodable(typed, c12Seeds[id][0], c12Seeds[id][1]))
+				continue
+			}
 			add(id, mkValue2(typed, c12Seeds[id][0], c12Seeds[id][1], ""))
 		}
 		return nil
@@ -171,6 +186,9 @@ func (s *c12Store) apply(op c12Op, typed bool) error {
 	case "init":
 		_, err := s.init(typed)
 		return err
+	case "init-bad":
+		_, err := s.initSeeds(typed, true)
+		return err
 	case "flush":
 		if s.qs != nil {
 			s.qs.Flush()
@@ -179,11 +197,15 @@ func (s *c12Store) apply(op c12Op, typed bool) error {
 	}
 	wt := s.st.Write(op.ID)
 	defer wt.Close()
+	v := mkValue2(typed, op.U, op.K, "")
+	if op.Bad {
+		v = mkUnencodable(typed, op.U, op.K)
+	}
 	switch op.Kind {
 	case "create":
-		return wt.Create(mkValue2(typed, op.U, op.K, ""))
+		return wt.Create(v)
 	case "update":
-		return wt.Update(mkValue2(typed, op.U, op.K, ""))
+		return wt.Update(v)
 	case "delete":
 		return wt.Delete()
 	}
@@ -305,6 +327,9 @@ func (m c12Model) clone() c12Model {
 
 // applyModel applies op to the model; returns whether the op succeeds.
 func (m *c12Model) applyModel(op c12Op) bool {
+	if op.Bad {
+		return false // an unencodable value can never be applied
+	}
 	switch op.Kind {
 	case "init":
 		if !m.Inited {
@@ -437,7 +462,19 @@ func c12Verify(c *core.Ctx, cfg c12Cfg, dir, ackFile string, desc map[string]int
 	for _, a := range acks {
 		if a.Acked {
 			if a.OK {
-				A.applyModel(a.Op)
+				// what the store acknowledged must be present - also when it
+				// acknowledged a value it cannot have stored
+				op := a.Op
+				if op.Bad {
+					c.Obs("acknowledged_unencodable_values", 1)
+					op.Bad = false
+					if op.Kind == "init-bad" {
+						op.Kind = "init"
+					}
+				}
+				A.applyModel(op)
+			} else if a.Op.Bad {
+				c.Obs("unencodable_values_refused", 1)
 			}
 			nAcked++
 		} else {
